@@ -441,3 +441,39 @@ Proof.
   intros k i a v T x F. cbn [rattrs attr_get]. destruct (qn_eqb x a) eqn:E; [|exact I].
   eapply typed_transfer; eauto.
 Qed.
+
+(* documents, strict form: ProvDocument.unified() returns only when no container holds a disagreement under any formal
+   attribute in a group without prov:collection; and ProvBundle.unified() likewise for the bundle's own records *)
+Theorem reachable_doc_unified_no_econflict : forall ft ops d dd nd,
+  let w := wrun ft ops in
+  get_doc w d = Some dd -> doc_unified (wft w) dd = OK nd ->
+  ~ group_econflict (brecs (dmain dd)) /\ forall k b, In (k, b) (dbundles dd) -> ~ group_econflict (brecs b).
+Proof.
+  intros ft ops d dd nd w G H.
+  destruct (reachable_WGood ft ops) as [_ WG]. fold w in WG.
+  destruct (WGood_get_doc w d dd WG G) as [GM GB].
+  unfold doc_unified in H.
+  destruct (add_namespaces nsm_init (map snd (regd (bns (dmain dd))))) as [m0|]; [|discriminate].
+  destruct (unified_records (wft w) (dmain dd)) as [u|e|] eqn:EU; try discriminate.
+  destruct (add_records None (wft w) _ u) as [nmain [x|e|]]; try discriminate.
+  unfold BGood in GM. rewrite Forall_forall in GM, GB.
+  split.
+  - apply (unified_returns_no_econflict (wft w) (dmain dd) u); [intros r Hr; apply GoodR_good_rec; exact (GM r Hr) | exact EU].
+  - intros k b Hin. destruct (unify_bundles_all_ok _ _ _ _ H k b Hin) as [ub EUb].
+    pose proof (GB (k, b) Hin) as Gb. cbn [snd] in Gb. unfold BGood in Gb. rewrite Forall_forall in Gb.
+    apply (unified_returns_no_econflict (wft w) b ub); [intros r Hr; apply GoodR_good_rec; exact (Gb r Hr) | exact EUb].
+Qed.
+
+Theorem reachable_bundle_unified_no_conflict : forall ft ops c b nb,
+  let w := wrun ft ops in
+  get_cont w c = Some b -> bundle_unified (wft w) b = OK nb ->
+  ~ group_sconflict (brecs b) /\ ~ group_econflict (brecs b).
+Proof.
+  intros ft ops c b nb w G H.
+  destruct (reachable_WGood ft ops) as [_ WG]. fold w in WG.
+  pose proof (WGood_get_cont w c b WG G) as B. unfold BGood in B. rewrite Forall_forall in B.
+  assert (GR : forall r, In r (brecs b) -> good_rec (wft w) r) by (intros r Hr; apply GoodR_good_rec; exact (B r Hr)).
+  assert (NR : forall r, In r (brecs b) -> NormalE r) by (exact (WNormal_get_cont_recs w c b (reachable_WNormal ft ops) G)).
+  unfold bundle_unified in H. destruct (unified_records (wft w) b) as [u|e|] eqn:E; try discriminate.
+  split; [exact (unified_returns_no_conflict _ _ _ GR NR E) | exact (unified_returns_no_econflict _ _ _ GR E)].
+Qed.
